@@ -750,6 +750,15 @@ func (e *Env) callExpr(t *ast.CallExpr) Value {
 				hit, found = v, true
 			}
 		}
+		if e.fr != nil && e.fr.v != nil {
+			// vacuity audit: a call name that no path of the function ever records makes the clauses
+			// that mention it say nothing (a mistyped name, an ext / iface key that never matched)
+			base := kv.T.S
+			if i := strings.LastIndex(base, "#"); i > 0 {
+				base = base[:i]
+			}
+			e.fr.v.calledName(base, found)
+		}
 		if name == "called" {
 			return Scalar{BoolT(found)}
 		}
